@@ -37,6 +37,25 @@
 (*            literal, identified and packed structs and arrays;           *)
 (*   rty      result-type rule; ctx: the context the instruction needs to  *)
 (*            be valid LLVM (scaffold built by Build.tla).                 *)
+(*   ArgSpace the enumerated constructor ARGUMENTS that are not operands,  *)
+(*            as a declared dimension (family "args"): atomic orderings    *)
+(*            (cmpxchg: every success x failure pair LLVM 14 accepts;      *)
+(*            atomicrmw: operation x ordering; atomic load / store;        *)
+(*            fence), synchronisation scopes, weak / volatile, every       *)
+(*            subset of the fast-math flags, predicates per operand class, *)
+(*            calling conventions, tail markers.  Law (C03): what was      *)
+(*            constructed is what prints.                                  *)
+(*   VClasses the value classes of an operand (family "opclass"): every    *)
+(*            operand that admits any value is, in turn, a literal         *)
+(*            constant (0 / 1, true / false, element list), null,          *)
+(*            zeroinitializer, undef, poison, a global, a constant         *)
+(*            expression, a blockaddress (field vc of the operand).  Laws: *)
+(*            the result type depends on the operand's TYPE only (C03);    *)
+(*            the successor list is independent of non-target operands     *)
+(*            (C15).                                                       *)
+(*   labelarg a basic block passed as a `label`-typed call argument or     *)
+(*            operand-bundle input (source "blockval"): an operand, never  *)
+(*            a successor (family "labelarg").                             *)
 (* CExprs     the constant-expression kinds (same shape, cat "cexpr").     *)
 (*                                                                         *)
 (* The module also defines the operators that turn an entry plus a         *)
@@ -379,7 +398,9 @@ CExprs == <<
   With(Entry("getelementptr", "cexpr", "value", "getelementptr{f:inbounds} ({ty}, {TV:Src}{TV*:Indices|, })",
         <<CC("Src", "gepsrc"), Many(S("Indices", "index", "gepidx", "const"))>>, <<"inbounds">>,
         <<"arr", "struct", "nstruct", "i32", "nest3", "outer", "arrs">>, "gepT", "const"),
-       [cmax |-> [i32 |-> 1, nest3 |-> 4, outer |-> 3, arrs |-> 3]]),
+       [cmax |-> [i32 |-> 1, nest3 |-> 4, outer |-> 3, arrs |-> 3],
+        \* a vector index on a scalar base: a vector of pointers
+        variants |-> <<VarC([gepvecidx |-> "1"], "i32")>>]),
   CCast("trunc", "i32", [i32 |-> I8, i64 |-> I32]), CCast("zext", "i8", [i8 |-> I32, i32 |-> I64]), CCast("sext", "i8", [i8 |-> I32, i32 |-> I64]),
   CCast("fptrunc", "double", [double |-> F32]), CCast("fpext", "float", [float |-> F64]),
   CCast("fptoui", "float", [float |-> I32]), CCast("fptosi", "double", [double |-> I64]),
@@ -429,7 +450,11 @@ MaskTy(T, attrs) == [MaskShape(T) EXCEPT !.n = IF Has(attrs, "masklen") THEN (IF
 LitTy == [i1 |-> I1, i8 |-> I8, i16 |-> I16, i32 |-> I32, i64 |-> I64, label |-> TyLabel, token |-> TyToken,
           lp |-> LPTy]
 RetOf(cls) == Concrete[cls]
-CalleeTy(cls, nargs, va) == TyPtr(TyFunc(RetOf(cls), SubSeq(ArgTys, 1, nargs), va))
+\* attribute labelarg: the first call argument is a basic block (`label` is a first-class type: LLVM 14
+\* accepts  declare void @g(label)  and  invoke void @g(label %bb) ...  for a block of the same function)
+IsLabelArg(attrs, i) == Has(attrs, "labelarg") /\ i = 1
+ArgTy(attrs, i) == IF IsLabelArg(attrs, i) THEN TyLabel ELSE ArgTys[i]
+CalleeTy(cls, nargs, va, attrs) == TyPtr(TyFunc(RetOf(cls), AsTuple([i \in 1..nargs |-> ArgTy(attrs, i)]), va))
 \* number of fixed parameters of the callee: all arguments, unless the attribute fixedargs says fewer
 FixedArgs(attrs, nargs) == IF Has(attrs, "fixedargs") THEN (IF attrs.fixedargs = "0" THEN 0 ELSE 1) ELSE nargs
 
@@ -466,11 +491,11 @@ SlotTy(e, cls, s, i, attrs, nargs, path) ==
     [] d = "pathT" -> PathTy(T, path)
     [] d = "gepsrc" -> GepSrcTy(cls, ASOf(attrs))
     [] d = "gepidx" -> GepIdxTy(cls, path, i, attrs)
-    [] d = "arg" -> ArgTys[i]
+    [] d = "arg" -> ArgTy(attrs, i)
     [] d = "clause" -> ClauseTys[i]
     [] d = "callee" -> IF Has(attrs, "calleeptr")      \* a call through a pointer value, possibly in address space 1
-                       THEN [CalleeTy(cls, FixedArgs(attrs, nargs), Has(attrs, "variadic")) EXCEPT !.as = ASOf(attrs)]
-                       ELSE CalleeTy(cls, FixedArgs(attrs, nargs), Has(attrs, "variadic"))
+                       THEN [CalleeTy(cls, FixedArgs(attrs, nargs), Has(attrs, "variadic"), attrs) EXCEPT !.as = ASOf(attrs)]
+                       ELSE CalleeTy(cls, FixedArgs(attrs, nargs), Has(attrs, "variadic"), attrs)
     [] d = "i8*" -> I8Ptr
     [] d = "i8**" -> TyPtr(I8Ptr)
     [] OTHER -> LitTy[d]
@@ -516,16 +541,21 @@ GroupOps(e, cls, g, c, attrs, nargs, path) ==
       [slot |-> g.mem[m].n, i |-> i, j |-> 0, role |-> g.mem[m].role,
        ty |-> SlotTy(e, cls, g.mem[m], i, attrs, nargs, path),
        src |-> IF field THEN "const"
-               ELSE IF g.mem[m].role = "callee" /\ Has(attrs, "calleeptr") THEN "any" ELSE g.mem[m].src,
-       cv |-> IF g.mem[m].ty = "gepidx" /\ i <= Len(path) /\ (field \/ g.mem[m].src = "const") THEN path[i] ELSE -1]]])
-BundleOps(bund) ==
+               ELSE IF g.mem[m].role = "callee" /\ Has(attrs, "calleeptr") THEN "any"
+               ELSE IF g.mem[m].role = "arg" /\ IsLabelArg(attrs, i) THEN "blockval" ELSE g.mem[m].src,
+       cv |-> IF g.mem[m].ty = "gepidx" /\ i <= Len(path) /\ (field \/ g.mem[m].src = "const") THEN path[i] ELSE -1,
+       vc |-> ""]]])
+\* (attribute labelbundle: the first input of the first bundle is a basic block)
+BundleOps(bund, attrs) ==
   FlatSeq([b \in 1..Len(bund) |->
-    [j \in 1..bund[b] |-> [slot |-> "OperandBundles.Inputs", i |-> b, j |-> j, role |-> "bundle input",
-                           ty |-> BundleTys[j], src |-> "any", cv |-> -1]]])
+    [j \in 1..bund[b] |->
+      LET lb == Has(attrs, "labelbundle") /\ b = 1 /\ j = 1 IN
+      [slot |-> "OperandBundles.Inputs", i |-> b, j |-> j, role |-> "bundle input",
+       ty |-> IF lb THEN TyLabel ELSE BundleTys[j], src |-> IF lb THEN "blockval" ELSE "any", cv |-> -1, vc |-> ""]]])
 OpsOf(e, cls, cfg, attrs, path) ==
   LET nargs == ArgCount(e, cfg) IN
   FlatSeq([gi \in 1..Len(e.groups) |->
-    IF e.groups[gi].ar = "bundles" THEN BundleOps(cfg.bund)
+    IF e.groups[gi].ar = "bundles" THEN BundleOps(cfg.bund, attrs)
     ELSE GroupOps(e, cls, e.groups[gi], cfg.cnt[gi], attrs, nargs, path)])
 
 \* successors: positions (in the operand list) of the successor slots, in the order of e.succs
@@ -572,8 +602,81 @@ TargetPairs(e, cls, cfg, attrs) ==
   LET su == SuccsOf(e, OpsOf(e, cls, cfg, attrs, DefPath(e, cls))) IN
   {<<su[q[1]], su[q[2]]>> : q \in {r \in (1..Len(su)) \X (1..Len(su)) : r[1] < r[2]}}
 
+
+----------------------------------------------------------------------------
+(* Enumerated constructor arguments that are not operands (family "args").
+   Each kind declares the domain of every such argument; ArgSpace is the
+   product, cut down to what LLVM 14 accepts.  An element is <<class, flags,
+   attributes>>. *)
+RECURSIVE SubSeqs(_)
+SubSeqs(s) == IF s = <<>> THEN {<<>>} ELSE LET r == SubSeqs(Tail(s)) IN r \cup {<<Head(s)>> \o x : x \in r}
+Scope(sc) == IF sc = "" THEN NoAttrs ELSE [syncscope |-> sc]
+ScopeNames == {"", "singlethread", "agent"}
+\* cmpxchg: the success ordering is monotonic or stronger, the failure ordering may not release
+\* (LLVM 13 dropped "no stronger than the success ordering"): 5 x 3 pairs
+SuccessOrds == SeqToSet(Orderings)
+FailureOrds == {"monotonic", "acquire", "seq_cst"}
+LoadOrds  == {"unordered", "monotonic", "acquire", "seq_cst"}
+StoreOrds == {"unordered", "monotonic", "release", "seq_cst"}
+FenceOrds == {"acquire", "release", "acq_rel", "seq_cst"}
+CallConvs == {"ccc", "fastcc", "coldcc", "ghccc", "cc 11", "webkit_jscc", "anyregcc", "preserve_mostcc", "preserve_allcc",
+              "swiftcc", "cxx_fast_tlscc", "tailcc", "cfguard_checkcc", "swifttailcc", "x86_stdcallcc", "spir_func",
+              "amdgpu_kernel", "cc 86"}
+ArgSpace(e) ==
+  CASE e.kind = "cmpxchg" ->
+         {<<"i32", fl, [ordering |-> so, ordering2 |-> fo] @@ Scope(sc)>>
+            : so \in SuccessOrds, fo \in FailureOrds, fl \in {<<>>, e.flags}, sc \in {"", "singlethread"}}
+    [] e.kind = "atomicrmw" ->
+         {<<"i32", <<>>, [op |-> o, ordering |-> so]>> : o \in SeqToSet(RMWOps), so \in SuccessOrds}
+         \cup {<<"i64", <<"volatile">>, [op |-> o, ordering |-> "acq_rel"] @@ Scope(sc)>> : o \in SeqToSet(RMWOps), sc \in {"singlethread", "agent"}}
+         \cup {<<c, <<>>, [op |-> o, ordering |-> so]>> : c \in {"float", "double"}, o \in {"fadd", "fsub", "xchg"}, so \in SuccessOrds}
+    [] e.kind = "load" ->
+         {<<"i32", fl, [atomic |-> "1", ordering |-> so, align |-> "4"] @@ Scope(sc)>>
+            : so \in LoadOrds, fl \in SubSeqs(e.flags), sc \in ScopeNames}
+    [] e.kind = "store" ->
+         {<<"i32", fl, [atomic |-> "1", ordering |-> so, align |-> "4"] @@ Scope(sc)>>
+            : so \in StoreOrds, fl \in SubSeqs(e.flags), sc \in ScopeNames}
+    [] e.kind = "fence" -> {<<"none", <<>>, [ordering |-> so] @@ Scope(sc)>> : so \in FenceOrds, sc \in ScopeNames}
+    \* every subset of the fast-math flags (all seven together are `fast`)
+    [] e.kind = "fadd" /\ e.cat = "inst" -> {<<"float", fl, NoAttrs>> : fl \in SubSeqs(NonFast(e.flags))}
+    [] e.kind = "fcmp" /\ e.cat = "inst" ->
+         {<<c, fl, [pred |-> p]>> : c \in {"double", "fvec"}, p \in SeqToSet(FPreds), fl \in {<<>>}}
+         \cup {<<"float", <<"nnan", "ninf">>, [pred |-> p]>> : p \in SeqToSet(FPreds)}
+    [] e.kind = "icmp" /\ e.cat = "inst" -> {<<c, <<>>, [pred |-> p]>> : c \in {"i8", "ptr", "vec", "pvec"}, p \in SeqToSet(IPreds)}
+    [] e.kind = "call" ->
+         {<<"void", <<>>, [cc |-> cc]>> : cc \in CallConvs}
+         \cup {<<"i32", <<>>, [tail |-> t, cc |-> cc]>> : t \in {"tail", "notail"}, cc \in {"fastcc", "tailcc", "swifttailcc"}}
+    [] e.kind = "invoke" -> {<<"void", <<>>, [cc |-> cc]>> : cc \in CallConvs}
+    [] OTHER -> {}
+
+(* Value classes of an operand (family "opclass"): what an operand that admits any value may be,
+   besides an SSA value. *)
+VClasses(ty) ==
+  CASE ty.k = "int" -> <<"lit0", "lit1", "undef", "poison", "expr">>
+    [] ty.k = "fp" -> <<"lit", "undef", "poison", "expr">>
+    [] ty.k = "ptr" -> IF ty.as = 0 THEN <<"null", "undef", "poison", "global", "expr">> ELSE <<"null", "undef", "poison">>
+    [] ty.k = "vec" -> IF ty.sc THEN <<"zero", "undef", "poison">> ELSE <<"lit", "zero", "undef", "poison", "expr">>
+    [] ty.k \in {"arr", "struct", "named"} -> <<"lit", "zero", "undef", "poison">>
+    [] OTHER -> <<>>
+\* the address operand of an indirectbr may also be the address of one of its destinations
+VClassesOf(e, c, k) ==
+  SeqToSet(VClasses(c.ops[k].ty))
+  \cup (IF e.kind = "indirectbr" /\ c.ops[k].slot = "Addr" /\ c.succs # <<>> THEN {"blockaddr"} ELSE {})
+\* the variants that change the TYPE of an operand the result type depends on (a vector index on a scalar
+\* base, a scalar index on a vector base, a scalar condition over vectors): their operands get every value
+\* class as well
+TypeVariantKinds == {"getelementptr", "select"}
+
 Cases(e) ==
-  LET dc == DefCls(e) da == DefAttrs(e) IN
+  LET dc == DefCls(e) da == DefAttrs(e)
+      vcls(v) == IF e.variants[v].cls # "" THEN e.variants[v].cls ELSE dc
+      \* the cases whose operands are run through the value classes
+      bases == {MkCase(e, "opclass", dc, DefaultCfg(e, dc), <<>>, da, TRUE, FALSE)}
+               \cup (IF e.kind \in TypeVariantKinds
+                     THEN {MkCase(e, "opclass", vcls(v), DefaultCfg(e, vcls(v)), <<>>, e.variants[v].a, TRUE, FALSE) : v \in 1..Len(e.variants)}
+                     ELSE {})
+               \cup (IF e.kind = "getelementptr" /\ e.cat = "inst" THEN {MkCase(e, "opclass", "pvec", DefaultCfg(e, "pvec"), <<>>, da, TRUE, FALSE)} ELSE {})
+  IN
      {MkCase(e, "config", dc, cfg, <<>>, da, TRUE, FALSE) : cfg \in Configs(e, dc)}
   \cup {MkCase(e, "wrap", dc, cfg, <<>>, da, TRUE, TRUE) : cfg \in {c \in Configs(e, dc) : ArgCount(e, c) > 0}}
   \cup {MkCase(e, "class", c, DefaultCfg(e, c), <<>>, da, nm, FALSE) : c \in SeqToSet(e.classes), nm \in BOOLEAN}
@@ -599,6 +702,21 @@ Cases(e) ==
         THEN UNION {{MkCaseP(e, "path", c, PathCfg(e, c, PathsOf(e, c)[pi]), <<>>, da, TRUE, FALSE, PathsOf(e, c)[pi], <<>>)
                       : pi \in 1..Len(PathsOf(e, c))} : c \in SeqToSet(e.classes)}
         ELSE {})
+  \* the enumerated non-operand arguments
+  \cup {MkCase(e, "args", x[1], DefaultCfg(e, x[1]), x[2], x[3], TRUE, FALSE) : x \in ArgSpace(e)}
+  \* every operand that admits any value (every constant operand but the first of a constant expression), in turn, in every value class
+  \cup UNION {UNION {{[b EXCEPT !.ops[k].src = "const", !.ops[k].vc = vc] : vc \in VClassesOf(e, b, k)}
+                       : k \in {j \in 1..Len(b.ops) : IF e.cat = "cexpr"
+                                                        THEN j > 1 /\ b.ops[j].slot # "Mask"
+                                                             /\ ~(b.ops[j].slot = "Indices" /\ GepIsField(b.cls, DefPath(e, b.cls), b.ops[j].i))
+                                                        ELSE b.ops[j].src = "any"}}
+               : b \in bases}
+  \* a basic block as a call argument / operand-bundle input (callbr: LLVM rejects a label argument)
+  \cup (IF e.kind \in {"call", "invoke", "callbr"}
+        THEN {MkCase(e, "labelarg", "void", [DefaultCfg(e, "void") EXCEPT !.bund = IF Has(a, "labelbundle") THEN <<1>> ELSE <<>>], <<>>, a, TRUE, FALSE)
+                : a \in {x \in {[labelarg |-> "1"], [labelbundle |-> "1"], [labelarg |-> "1", labelbundle |-> "1"]}
+                            : e.kind = "callbr" => ~Has(x, "labelarg")}}
+        ELSE {})
   \* every pair of branch targets shared, at the default configuration and (bundles aside) at every configuration
   \cup (IF e.cat = "term" /\ e.succs # <<>> /\ e.kind # "invoke"      \* invoke: normal = unwind target is invalid
         THEN UNION {{MkCaseP(e, "alias", dc, cfg, <<>>, da, TRUE, FALSE, <<>>, pr) : pr \in TargetPairs(e, dc, cfg, da)}
@@ -614,6 +732,13 @@ CaseWellFormed(e, c) ==
   /\ \A k \in 1..Len(c.ops) : c.ops[k].role \in LabelRoles =>
         Cardinality({n \in 1..Len(c.succs) : c.succs[n] = k}) = 1
   /\ (e.cat # "term" => c.succs = <<>>)
+  \* a block passed as an argument / bundle input is an operand of label type that is no successor
+  /\ \A k \in 1..Len(c.ops) : c.ops[k].src = "blockval" =>
+        c.ops[k].ty = TyLabel /\ c.ops[k].role \in {"arg", "bundle input"} /\ \A n \in 1..Len(c.succs) : c.succs[n] # k
+  \* a value class is only given to an operand that is a constant of that class' type
+  /\ \A k \in 1..Len(c.ops) : c.ops[k].vc # "" =>
+        c.ops[k].src = "const" /\ c.ops[k].role \notin LabelRoles
+        /\ (c.ops[k].vc = "blockaddr" \/ \E n \in 1..Len(VClasses(c.ops[k].ty)) : VClasses(c.ops[k].ty)[n] = c.ops[k].vc)
   \* constant struct indices of a getelementptr are valid field numbers; shared operands have one type
   /\ \A k \in 1..Len(c.ops) : c.ops[k].cv >= 0 => c.ops[k].src = "const"
   /\ \A k \in 1..Len(c.ops) : c.alias[k] <= k /\ c.ops[c.alias[k]].ty = c.ops[k].ty
